@@ -397,20 +397,20 @@ def loC (b : Nat) (c : Cfg) : Nat :=
   | _ => 0
 
 /-- the termination measure of the one-client system, ordered lexicographically -/
-def measure (b : Nat) (c : Cfg) : Nat × Nat := (hiC c, loC b c)
+def termMeasure (b : Nat) (c : Cfg) : Nat × Nat := (hiC c, loC b c)
 
 def MLt : Nat × Nat → Nat × Nat → Prop := Prod.Lex (· < ·) (· < ·)
 
 theorem mlt_wf : WellFounded MLt := (Prod.lex Nat.lt_wfRel Nat.lt_wfRel).wf
 
 theorem measure_eq {b : Nat} {s : Shared} {tm tc : Thread} (otp : Option Thread) :
-    measure b { sh := s, ths := tm :: tc :: Option.toList otp } = (hi tc otp, lo b s tm tc otp) := by
+    termMeasure b { sh := s, ths := tm :: tc :: Option.toList otp } = (hi tc otp, lo b s tm tc otp) := by
   cases otp <;> rfl
 
 theorem mlt_of_dec {b : Nat} {s s' : Shared} {tm tc tm' tc' : Thread} {otp otp' : Option Thread}
     (h : Dec b s tm tc otp s' tm' tc' otp') :
-    MLt (measure b { sh := s', ths := tm' :: tc' :: Option.toList otp' })
-      (measure b { sh := s, ths := tm :: tc :: Option.toList otp }) := by
+    MLt (termMeasure b { sh := s', ths := tm' :: tc' :: Option.toList otp' })
+      (termMeasure b { sh := s, ths := tm :: tc :: Option.toList otp }) := by
   rw [measure_eq, measure_eq]
   rcases h with h | ⟨h1, h2⟩
   · exact Prod.Lex.left _ _ h
@@ -436,7 +436,7 @@ theorem vxc_intro {b : Nat} {s : Shared} {tm tc : Thread} {otp : Option Thread} 
 /-- **Variant**: every step of every thread strictly decreases the measure (and keeps its side conditions). -/
 theorem var_step {g : Gen} {b : Nat} {c c' : Cfg} {tid : Queue.Tid} {lbl : String}
     (hI : RLInv g b c) (hx : VXc b c) (h : step c tid = some (lbl, c')) :
-    VXc b c' ∧ MLt (measure b c') (measure b c) := by
+    VXc b c' ∧ MLt (termMeasure b c') (termMeasure b c) := by
   obtain ⟨tm, tc, otp, hths, hm, hprog, hns, hup, hcore, hL⟩ := hI
   obtain ⟨s, ths⟩ := c
   simp only at hths hns hup hcore hL
@@ -478,7 +478,7 @@ theorem no_infinite_run {p : Nat} {g : Gen} {b : Nat} {f : Nat → Cfg}
     | succ n ih =>
       obtain ⟨tid, lbl, hs⟩ := hrun n
       exact .step ih hs
-  have key : ∀ m : Nat × Nat, ∀ n, measure b (f n) = m → False := by
+  have key : ∀ m : Nat × Nat, ∀ n, termMeasure b (f n) = m → False := by
     intro m
     induction m using mlt_wf.induction with
     | _ m ih =>
